@@ -585,4 +585,48 @@ PROPS["C17"] = {
     "level_note": "Trusted: Lean kernel, the extractor (syntactic), harness pool scribbling.",
 }
 
+
+PROPS["C19"] = {
+    "lean": ["WsVerif.Props.C19", "WsVerif.Bridge.C19"],
+    "race_binary": True,
+    "rule": "N sessions (2, 8, 16; thorough: up to 64) on their own goroutines and in-memory connections, GOMAXPROCS 1/4/16, in a binary "
+            "built with -race (harness/cmd/wsrace): zero-copy Upgrader with Protocol/Negotiate/Extension callbacks and ws.Upgrade "
+            "(DefaultUpgrader), ws.UpgradeHTTP (DefaultHTTPUpgrader) and HTTPUpgrader, Dialer.Upgrade from ONE shared Dialer value with "
+            "protocols and parameterised extensions answered differently per session, message exchange in both directions (WriteClient/"
+            "ServerMessage, pooled GetWriter/PutWriter across its size classes, default writers, precompiled frames, pings answered by "
+            "ReadClientData/ReadServerData, close with reason), wsflate frame helpers (DefaultHelper) and the compressed writer/reader "
+            "stack; payload sizes 0..70000 across the byte pool's classes. Every session is deterministic; it runs alone first, then all "
+            "run together (1-3 rounds); each session's transcript must equal its solo transcript (masks/nonces canonicalised), every "
+            "session checks results against what it asked for and re-reads kept handshake data and payloads at its end; a race-detector "
+            "report is a violation whose replay names the functions of the first report.",
+    "exhaustive_families": [],
+    "trusted_base": [
+        "Model/Pools.lean: sessions as programs over get/fill/read/put on a shared free list with stale buffer contents; a hand "
+        "abstraction of gobwas/pool (pbytes, pbufio) and wsutil.writers - the dependency is modelled, not verified",
+        "the step granularity: one pool action is atomic in the model; data races inside an action, sync.Pool, the garbage collector, "
+        "goroutine preemption and math/rand's lock are NOT in the model (named runtime residue) - they are only observed, by the race detector run",
+        "Bridge.C19 (regenerated facts): every pool Get has a deferred Put in the same function; no function but init writes, appends to, "
+        "copies into or takes the address of a package-level variable; methods of Dialer/Upgrader/HTTPUpgrader/Helper never write through "
+        "their receiver and the defaults are used through value receivers. The 'overwritten before read' half of the discipline is the "
+        "contract of pbufio.Get*(Reset) and of copy(payload, p) and is not extracted",
+        "Go's race detector (happens-before, finds only races that occur in the executed interleavings)",
+    ],
+    "assumptions": COMMON_ASSUME + [
+        "sessions follow the library's get/put discipline (Disc): touch a buffer only between their own Get and Put, overwrite before read",
+        "callbacks given to the library by the sessions are themselves free of shared state",
+    ],
+    "level_text": "Kernel-checked on the pool model, for ANY number of sessions, ANY programs obeying the get/put discipline, ANY initial pool "
+                  "(stale contents included) and ANY schedule: no buffer is ever held by two sessions or while in the pool (ownership_inv), and "
+                  "what each session observes is what its own program computes with no heap, pool or neighbour at all (noninterference), hence "
+                  "equal to its run alone from an empty pool (same_as_alone); a program outside the discipline provably does observe a "
+                  "neighbour's bytes (leaky_observes_others). PARTIAL: interleaving is at pool-action granularity; the Go memory model, "
+                  "sync.Pool and the scheduler are observed by a -race harness (solo-vs-together transcripts of real sessions), not proved. "
+                  "The syntactic discipline is re-extracted from the source on every run (Bridge.C19).",
+    "level_note": "Trusted: Lean kernel, Model/Pools.lean as an abstraction of the pools, wsfacts extraction, the race detector; data races are "
+                  "observed, not proved absent.",
+    "technique": "Lean 4 invariant proof (ownership + non-interference for all schedules) over an executable pool/session model; discipline "
+                 "facts regenerated from the Go source (wsfacts) and decided in Lean; correspondence by real concurrent sessions under the "
+                 "Go race detector compared with their solo runs",
+}
+
 NOT_APPLICABLE = {}
